@@ -969,6 +969,83 @@ pub fn run_c15(rep: &mut Report) {
 
 // =================================================================== C16
 
+/// Several threads at once, each with objects of its own: whatever the crate keeps outside the objects (statics) is then
+/// shared between them.  Every answer is judged exactly as in the sequential sweeps.  `kind` 17: AnyLayout look-ups (by value
+/// and by reference) against the recorded answers of the wrapped layout; `kind` 16: presses through an
+/// `EventDecoder<AnyLayout>` per thread, character-less keys must come out as their own raw key.
+fn concurrent_objects(rep: &mut Report, cube: &Cube, kind: u8) {
+    let threads = crate::scan::n_threads().max(4);
+    let per_thread: u32 = if rep.thorough() { 4_000_000 } else { 400_000 };
+    let nk = cube.keys.len();
+    let found: Vec<Vec<(String, String)>> = std::thread::scope(|sc| {
+        let hs: Vec<_> = (0..threads)
+            .map(|t| {
+                sc.spawn(move || {
+                    let mut bad: Vec<(String, String)> = Vec::new();
+                    let r = guarded(|| {
+                        let mut x = (t as u32).wrapping_mul(0x9E37_79B9) | 1;
+                        let mut next = || {
+                            x ^= x << 13;
+                            x ^= x >> 17;
+                            x ^= x << 5;
+                            x
+                        };
+                        if kind == 17 {
+                            let objs: Vec<Box<dyn pc_keyboard::KeyboardLayout>> = (0..20).map(|o| layout_obj(o / 2, 1 + o % 2)).collect();
+                            for _ in 0..per_thread {
+                                let r = next();
+                                // threads work on different variants most of the time
+                                let o = ((r >> 20) as usize % 4 + t * 3) % 20;
+                                let (ki, m, mode) = ((r >> 10) as usize % nk, (r & 511) as u16, ((r >> 9) & 1) as usize);
+                                let got = dk_enc(objs[o].map_keycode(cube.keys[ki], &mods_from_bits(m), MODES[mode]));
+                                let want = cube.get(o / 2, 0, ki, mode, m);
+                                if got != want && bad.len() < 5 {
+                                    bad.push((
+                                        format!("C17|concurrent|{}|form={}|key={:?}|bare={}|wrapped={}", layout_name(o / 2), FORM_NAMES[1 + o % 2], cube.keys[ki], cube.show(want), cube.show(got)),
+                                        format!("with {} threads using AnyLayout objects of their own at the same time: AnyLayout::{} used {} gives {} for {:?} with {} (mode {}); the wrapped layout itself gives {}", threads, layout_name(o / 2), if o % 2 == 0 { "by value" } else { "by reference" }, cube.show(got), cube.keys[ki], mods_str(m), mode_str(MODES[mode]), cube.show(want)),
+                                    ));
+                                }
+                            }
+                        } else {
+                            let li = t % 10;
+                            let mut dec = EventDecoder::new(any_value(li), if t % 2 == 0 { HandleControl::Ignore } else { HandleControl::MapLettersToUnicode });
+                            let plain: Vec<KeyCode> = cube.keys.iter().copied().filter(|k| !MOD_KEYS.contains(k)).collect();
+                            // each thread keeps to a few keys of its own, so that a value leaking from another thread stands out
+                            let mine: Vec<KeyCode> = (0..6).map(|i| plain[(t * 7 + i * 19) % plain.len()]).collect();
+                            for _ in 0..per_thread {
+                                let k = mine[next() as usize % mine.len()];
+                                let got = dec.process_keyevent(KeyEvent::new(k, KeyState::Down));
+                                let _ = dec.process_keyevent(KeyEvent::new(k, KeyState::Up));
+                                let ok = match got {
+                                    Some(DecodedKey::RawKey(r)) => r == k || numpad_alias(k) == Some(r),
+                                    Some(DecodedKey::Unicode(_)) => !CHARLESS.contains(&k),
+                                    None => true, // no decoded key at all is C14's matter
+                                };
+                                if !ok && bad.len() < 5 {
+                                    bad.push((
+                                        format!("C16|concurrent|{}|key={:?}|got={}", layout_name(li), k, odk_str(&got)),
+                                        format!("with {} threads typing on EventDecoder<AnyLayout> objects of their own at the same time: on {} the press of {:?} decoded to {}", threads, layout_name(li), k, odk_str(&got)),
+                                    ));
+                                }
+                            }
+                        }
+                    });
+                    let _ = r; // a panic is C08's matter
+                    bad
+                })
+            })
+            .collect();
+        hs.into_iter().map(|h| h.join().unwrap_or_default()).collect()
+    });
+    rep.evaluations += threads as u64 * per_thread as u64;
+    rep.count("operations_by_threads_working_at_the_same_time_on_objects_of_their_own", threads as u64 * per_thread as u64);
+    for v in found {
+        for (sig, what) in v {
+            rep.violate(sig, what, J::obj().with("kind", J::s("concurrent-objects")).with("threads", J::u(threads as u64)));
+        }
+    }
+}
+
 pub fn run_c16(rep: &mut Report) {
     let cube = cube_common("C16", rep);
     let mut distinct: BTreeSet<(usize, usize)> = BTreeSet::new();
@@ -1040,6 +1117,7 @@ pub fn run_c16(rep: &mut Report) {
         let mut focus: Vec<KeyCode> = CHARLESS.iter().copied().filter(|k| !MOD_KEYS.contains(k)).collect();
         focus.extend(NUMPAD_DIGITS.iter().map(|(k, _, _)| *k));
         through_decoder("C16", rep, &cube, &focus, &acc);
+        concurrent_objects(rep, &cube, 16);
     }
     rep.count("raw_key_outputs_examined", raw_outputs);
     rep.count("charless_keys_required_raw", CHARLESS.len() as u64);
@@ -1314,6 +1392,7 @@ pub fn run_c17(rep: &mut Report) {
         }
     }
     c17_hidden_state_probe(rep, &cube);
+    concurrent_objects(rep, &cube, 17);
     rep.count("variant_switches", switches);
     rep.distinct_nontrivial = distinct;
     rep.exhaustive = Some(true);
